@@ -147,7 +147,49 @@ def test_simfs():
     os.replace(t.name, p)
     check(fs.get(p) == b"fresh" and sorted(os.listdir("/simfs/d")) == ["f"], "tempfile + os.replace on SimFS")
     fs.end_call()
+    # C-level I/O on descriptors of simulated files: ndarray.tofile, numpy.memmap, mmap on a growing file
+    import mmap
+    a = np.arange(24, dtype="<i4")
+    fs.begin_call("s")
+    with open(p, "xb") if not os.path.exists(p) else open(p, "wb") as f:
+        f.write(b"HEAD")
+        a.tofile(f)
+        f.write(b"TAIL")
+    fs.end_call()
+    check(fs.get(p) == b"HEAD" + a.tobytes() + b"TAIL", "ndarray.tofile into a simulated stream keeps positions in step")
+    fs.begin_call("s")
+    try:
+        open(p, "xb")
+        check(False, "mode 'x' on an existing file must fail")
+    except FileExistsError:
+        pass
+    m = np.memmap(p, dtype="<i4", mode="r+", offset=4, shape=(24,))
+    m[0] = 99
+    m.flush()
+    del m
+    with open(p, "r+b") as f:
+        f.truncate(4096)
+        mm = mmap.mmap(f.fileno(), 4096, access=mmap.ACCESS_WRITE)
+        mm[4000:4004] = b"wxyz"
+        mm.flush()
+        mm.close()
+    b = np.fromfile(p, dtype="<i4", count=2, offset=4)
+    fs.end_call()
+    got = fs.get(p)
+    check(len(got) == 4096 and got[4:8] == np.int32(99).tobytes() and got[4000:4004] == b"wxyz" and b[0] == 99,
+          "numpy.memmap / mmap.mmap / fromfile on simulated files")
+    # unlink while open: the handle keeps the bytes, the name is gone
+    fs.begin_call("s")
+    f = open(p, "rb")
+    os.remove(p)
+    check(f.read(4) == b"HEAD" and not os.path.exists(p), "unlink while open")
+    f.close()
+    fs.end_call()
     check(len(fs.open_handles) == 0 and not fs.fds, "no leaked handles in selftest")
+    fs.put(p, b"again")
+    nfd = len(os.listdir("/proc/self/fd"))
+    fs.destroy()
+    check(len(os.listdir("/proc/self/fd")) < nfd, "destroy releases the memory files")
     simfs.mount(None)
 
 
